@@ -71,6 +71,9 @@ impl From<InMessageMeta> for OutMessageMeta {
 pub enum SwarmControlMessage {
     ConnectionClosed {
         ip_version: IpVersion,
+        /// Socket worker and connection id of the closed connection
+        consumer_id: ConsumerId,
+        connection_id: ConnectionId,
         announced_info_hashes: Vec<(InfoHash, PeerId)>,
     },
 }
